@@ -225,6 +225,7 @@ def s_base(draw, max_len=5):
     case['load'] = load
     case['init'] = G.s_init(draw, mdl)
     case['motor']['pwm0'] = draw(st.sampled_from([1, 1, 1, 0.5, -1, 0]))
+    G.add_variants(draw, case)
     return case, mdl
 
 
